@@ -16,6 +16,15 @@ search: the property predicate on the real implementation against an independent
   edge scalars on all 17 shipped curves, ECDH symmetry through ecdh.py, invalid points through
   Public_key / VerifyingKey.from_string / ECDH.load_received_public_key_bytes; optional OpenSSL
   differential on P-256 (thorough tier, only if an openssl binary exists).
+
+The AFFINE class Point (second representation): tools/gen/ec.py: gen_ec_affine -> Gen/EcAffine.v (the
+  arithmetic of Point.__add__ / double / __neg__), hand models in Model/EcAffine.v (constructor incl. the
+  order assertion, __eq__, the __mul__ loop, PointJacobi ==/+ with an affine operand, from_affine,
+  to_affine).  correspondence: aff_run / aff_model on small and shipped curves - exact integers of the
+  returned objects and exact exception kinds (AssertionError, ValueError).  search: aff_impl_ok = the
+  independent textbook arithmetic, complete enumeration of the small groups and edge scalars on the 17
+  shipped curves.  A disagreement of the model is reported as a failing input (kind affine-wrong) when
+  the implementation's result violates the group law, as a broken correspondence otherwise.
 """
 import os
 import shutil
@@ -25,9 +34,10 @@ import tempfile
 
 from vlib import qZ, qlist, qbool, qbytes
 
-GEN_DEPS = ("EcFormulas.v", "gen_ec_formulas", "Curves.v", "gen_curves")
-MODEL_TARGETS = ["Model/Ec.vo", "Model/P256Plugin.vo"]
-IMPORTS = "From Bec2 Require Import Base.Modp Gen.EcFormulas Gen.Curves Model.Ec Model.P256Plugin."
+GEN_DEPS = ("EcFormulas.v", "gen_ec_formulas", "Curves.v", "gen_curves", "EcAffine.v", "gen_ec_affine")
+MODEL_TARGETS = ["Model/Ec.vo", "Model/P256Plugin.vo", "Model/EcAffine.vo"]
+IMPORTS = ("From Bec2 Require Import Base.Modp Gen.EcFormulas Gen.Curves Gen.EcAffine Model.Ec Model.P256Plugin "
+           "Model.EcAffine.")
 
 PREAMBLE = """
 Definition jeqb (A B : Z * Z * Z) : bool :=
@@ -62,6 +72,17 @@ Definition outcome_eqb (r : result ecdh_outcome) (o : ecdh_outcome) : bool :=
   | _, _ => false
   end.
 Definition iserr {A} (r : result A) : bool := match r with Err _ => true | Ok _ => false end.
+(* the affine class: results are compared as the integers the objects hold, errors by kind *)
+Definition xyeqb (u v : Z * Z) : bool := ((fst u =? fst v) && (snd u =? snd v))%Z.
+Definition raeq (r e : result (option (Z * Z))) : bool := res_eqb (option_eqb xyeqb) r e.
+Definition rqeq (r e : result (Z * Z)) : bool := res_eqb xyeqb r e.
+(* PointJacobi.from_affine(P) * k == P * k as the library's own mixed __eq__ sees it (a function, so that the
+   case files contain no `match` on a closed term: its elaboration would reduce the scrutinee without the VM) *)
+Definition via_eq (p a b h ord : Z) (q : Z * Z) (k : Z) : bool :=
+  match pj_mul p a ord false (pj_from_affine q) k, ap_mul p a b h ord (Some q) k with
+  | Ok rJ, Ok rA => pj_opt_eq_aff p rJ rA
+  | _, _ => false
+  end.
 Definition rl (r : result (list Z)) (b : list Z) : bool := res_eqb (list_eqb Z.eqb) r (Ok b).
 Definition ceq (c : curve) (name : list N) (p a b gx gy n h : Z) : bool :=
   list_eqb N.eqb (c_name c) name &&
@@ -382,10 +403,24 @@ def correspondence(ctx):
     watchdog(True)
     try:
         exprs, meta, heavy = _correspondence_cases(ctx)
+        aff_small, aff_ship, aff_heavy = affine_correspondence(ctx)
     finally:
         watchdog(False)
+    n_heavy = len(heavy)
+    heavy = heavy + aff_heavy
     bad = ctx.coq_eval("ec", IMPORTS, exprs, preamble=PREAMBLE, shard=120)
+    bad_a = ctx.coq_eval("ecaff", IMPORTS, [e for e, _ in aff_small], preamble=PREAMBLE, shard=60)
+    bad_s = ctx.coq_eval("ecaffship", IMPORTS, [e for e, _ in aff_ship], preamble=PREAMBLE, shard=3, timeout=1500)
     bad_h = ctx.coq_eval("ecbig", IMPORTS, [e for e, _ in heavy], preamble=PREAMBLE, shard=1, timeout=1500)
+    if bad_a is not None:
+        ctx.traces += len(aff_small)
+        affine_report(ctx, bad_a, aff_small, "small curves")
+    if bad_s is not None:
+        ctx.traces += len(aff_ship)
+        affine_report(ctx, bad_s, aff_ship, "shipped curves")
+    if bad_h is not None:
+        affine_report(ctx, [i - n_heavy for i in bad_h if i >= n_heavy], aff_heavy, "scalar multiplication on shipped curves")
+        bad_h = [i for i in bad_h if i < n_heavy]
     if bad is None or bad_h is None:
         return
     ctx.traces += len(exprs) + len(heavy)
@@ -703,6 +738,488 @@ def _correspondence_cases(ctx):
         ctx.case(("plugin-valid", raw))
         ctx.dist["model:p256-valid:%s" % ok] += 1
     return exprs, meta, heavy
+
+
+# ---------------------------------------------------------------------------
+# the affine class Point and the mixed Point / PointJacobi operations
+# (Model/EcAffine.v over Gen/EcAffine.v).  One operation = one JSON-able data dict
+#   {"op": "aff", "aop": <operation>, "p", "a", "b", "n" | "curve": <shipped name>, "h": cofactor given to the
+#    CurveFp object (absent = 1 resp. the shipped curve's own object), "P", "Q": [x, y] | None (INFINITY),
+#    "J": [X, Y, Z], "k", "order"}
+# aff_run executes it on the implementation, aff_model builds the Coq comparison with the model,
+# aff_impl_ok evaluates the property predicate (independent textbook arithmetic) on the implementation's result.
+
+MODELLED_ERRS = ("EAssert", "EValue")
+NA = "n/a"
+
+
+def aff_curve(d):
+    """(CurveFp object, p, a, b, n, cofactor as the model sees it)"""
+    ec, curves = lib()[0], lib()[1]
+    if "curve" in d:
+        c = getattr(curves, d["curve"])
+        p, a, b, n = int(c.curve.p()), int(c.curve.a()), int(c.curve.b()), int(c.order)
+        if "h" not in d:
+            return c.curve, p, a, b, n, int(c.curve.cofactor())
+    else:
+        p, a, b, n = d["p"], d["a"], d["b"], d["n"]
+    h = d.get("h", 1)
+    return ec.CurveFp(p, a, b, h), p, a, b, n, (0 if h is None else h)
+
+
+def aff_obj(cv, P, order=None):
+    ec = lib()[0]
+    return ec.INFINITY if P is None else ec.Point(cv, P[0], P[1], order)
+
+
+def aff_val(R):
+    """the integers an affine result object holds (None = INFINITY)"""
+    ec = lib()[0]
+    if not isinstance(R, ec.Point):
+        raise TypeError("result is not an affine Point: %r" % (type(R),))
+    if R.x() is None and R.y() is None:
+        return None
+    return (int(R.x()), int(R.y()))
+
+
+def _tp(v):
+    return None if v is None else tuple(v)
+
+
+def aff_run(d):
+    """('ok', value) | ('err', canonical exception name) of one operation on the implementation"""
+    from vlib import canon_exc
+    ec = lib()[0]
+    cv, p, a, b, n, h = aff_curve(d)
+    op, P, Q, J, k, order = d["aop"], _tp(d.get("P")), _tp(d.get("Q")), _tp(d.get("J")), d.get("k"), d.get("order")
+
+    def jac():
+        return ec.PointJacobi(cv, J[0], J[1], J[2], order)
+    try:
+        if ARMED[0]:
+            kick()
+        if op == "add":
+            v = aff_val(aff_obj(cv, P) + aff_obj(cv, Q))
+        elif op == "double":
+            v = aff_val(aff_obj(cv, P).double())
+        elif op == "neg":
+            v = aff_val(-aff_obj(cv, P))
+        elif op == "mul":
+            v = aff_val(aff_obj(cv, P, order) * k)
+        elif op == "rmul":
+            v = aff_val(k * aff_obj(cv, P, order))
+        elif op == "init":
+            v = aff_val(ec.Point(cv, P[0], P[1], order))
+        elif op == "eq":
+            A, B = aff_obj(cv, P), aff_obj(cv, Q)
+            v = (bool(A == B), bool(A != B))
+        elif op == "jeq":
+            A = aff_obj(cv, Q)
+            v = (bool(jac() == A), bool(A == jac()), bool(jac() != A))
+        elif op == "jadd":
+            A = aff_obj(cv, Q)
+            v = (to_aff(jac() + A, p), to_aff(A + jac(), p))
+        elif op == "via":
+            A = aff_obj(cv, P, order)
+            R = ec.PointJacobi.from_affine(A) * k
+            S = A * k
+            T = R if R is ec.INFINITY else R.to_affine()
+            v = (to_aff(T, p), bool(R == S), bool(S == R))
+        elif op == "conv":
+            A = aff_obj(cv, P, order)
+            Jc = ec.PointJacobi.from_affine(A)
+            v = (coords(Jc), aff_val(Jc.to_affine()), Jc.order() == order and Jc.to_affine().order() == order)
+        else:
+            raise KeyError(op)
+        return ("ok", v)
+    except ImplTimeout:
+        raise
+    except Exception as e:          # noqa
+        return ("err", canon_exc(e))
+
+
+def _canonical(P, p):
+    return P is None or (0 <= P[0] < p and 0 <= P[1] < p)
+
+
+def _modp(P, p):
+    return None if P is None else (P[0] % p, P[1] % p)
+
+
+def _jaff(J, p):
+    X, Y, Zc = J
+    if Y % p == 0 or Zc % p == 0:
+        return None
+    zi = inv(Zc, p)
+    return (X * zi * zi % p, Y * zi * zi * zi % p)
+
+
+def aff_impl_ok(d, res):
+    """the property predicate on the implementation's result: True / False, or NA when the inputs are outside the
+    property's domain (unreduced affine coordinates, a wrong order attribute, off-curve constructor arguments)"""
+    cv, p, a, b, n, h = aff_curve(d)
+    op, P, Q, J, k, order = d["aop"], _tp(d.get("P")), _tp(d.get("Q")), _tp(d.get("J")), d.get("k"), d.get("order")
+    on = lambda T: T is None or (T[1] * T[1] - (T[0] ** 3 + a * T[0] + b)) % p == 0
+    if op == "init":
+        if not on(P):
+            return res == ("err", "EAssert")
+        if order is not None and order % n != 0:
+            return NA            # a wrong order attribute: the constructor's order assertion is vacuous (C17_affine_init)
+        return res == ("ok", P)
+    if not (_canonical(P, p) and _canonical(Q, p) and on(P) and on(Q)):
+        return NA
+    if order is not None and order % n != 0:
+        return NA
+    if J is not None and ((J[1] != 0 and J[1] % p == 0) or (J[2] != 0 and J[2] % p == 0)):
+        return NA            # non-zero multiples of p as Y or Z: outside the contract of the integer tests
+    if res[0] != "ok":
+        return False
+    v = res[1]
+    if op == "add":
+        return _modp(v, p) == a_add(P, Q, p, a)
+    if op == "double":
+        return _modp(v, p) == a_add(P, P, p, a)
+    if op == "neg":
+        return _modp(v, p) == a_neg(P, p)
+    if op in ("mul", "rmul"):
+        return _modp(v, p) == a_mul(k, P, p, a)
+    if op == "eq":
+        return v == (P == Q, P != Q)
+    if op == "jeq":
+        if J[0] % p == 0 and J[1] % p == 0 and J[2] % p == 0:
+            return NA        # (0, 0, 0)-like triples satisfy the cross-multiplied test with everything
+        e = _jaff(J, p) == Q
+        return v == (e, e, not e)
+    if op == "jadd":
+        w = a_add(_jaff(J, p), Q, p, a)
+        return v == (w, w)
+    if op == "via":
+        return v == (a_mul(k, P, p, a), True, True)
+    if op == "conv":
+        return v == ((P[0], P[1], 1), P, True)
+    return NA
+
+
+def qaff1(T):
+    return "None" if T is None else "(Some (%s, %s))" % (qZ(T[0]), qZ(T[1]))
+
+
+def aff_model(d, res):
+    """Coq boolean: the model agrees with the implementation's outcome `res` (exact integers, exact error kind)"""
+    cv, p, a, b, n, h = aff_curve(d)
+    op, P, Q, J, k, order = d["aop"], _tp(d.get("P")), _tp(d.get("Q")), _tp(d.get("J")), d.get("k"), d.get("order")
+    C = "%s %s %s" % (qZ(p), qZ(a), qZ(b))
+    ordq, hq = qZ(order or 0), qZ(h)
+    if res[0] == "err" and res[1] not in MODELLED_ERRS:
+        return "false"                # an exception class the model never produces
+    xy = lambda T: "(%s, %s)" % (qZ(T[0]), qZ(T[1]))
+    exp_a = lambda: "(Ok %s)" % qaff1(res[1]) if res[0] == "ok" else "(Err %s)" % res[1]
+    exp_q = lambda: "(Ok %s)" % xy(res[1]) if res[0] == "ok" else "(Err %s)" % res[1]
+    if op == "add":
+        return "(raeq (ap_add %s %s %s) %s)" % (C, qaff1(P), qaff1(Q), exp_a())
+    if op == "double":
+        return "(raeq (ap_double %s %s) %s)" % (C, qaff1(P), exp_a())
+    if op == "neg":
+        return "(rqeq (ap_neg %s %s) %s)" % (C, xy(P), exp_q())
+    if op in ("mul", "rmul"):
+        return "(raeq (ap_mul %s %s %s %s %s) %s)" % (C, hq, ordq, qaff1(P), qZ(k), exp_a())
+    if op == "init":
+        return "(rqeq (ap_init %s %s %s %s) %s)" % (C, hq, ordq, xy(P), exp_q())
+    if res[0] != "ok":
+        return "false"                # the remaining operations never raise in the model
+    v = res[1]
+    if op == "eq":
+        m = "(ap_eqb %s %s)" % (qaff1(P), qaff1(Q))
+        return "(Bool.eqb %s %s && Bool.eqb (negb %s) %s)" % (m, qbool(v[0]), m, qbool(v[1]))
+    if op == "jeq":
+        m = "(pj_eq_aff %s %s %s)" % (qZ(p), qj(J), qaff1(Q))
+        return "(Bool.eqb %s %s && Bool.eqb %s %s && Bool.eqb (negb %s) %s)" % (m, qbool(v[0]), m, qbool(v[1]), m, qbool(v[2]))
+    if op == "jadd":
+        m = "(pj_opt_to_affine %s (pj_add_aff %s %s %s %s))" % (qZ(p), qZ(p), qZ(a), qj(J), qaff1(Q))
+        return "(roam %s %s %s && roam %s %s %s)" % (qZ(p), m, qaff1(v[0]), qZ(p), m, qaff1(v[1]))
+    if op == "via":
+        m = "(ap_mul_via_jacobi %s %s %s %s %s)" % (qZ(p), qZ(a), ordq, xy(P), qZ(k))
+        if v[1] != v[2]:
+            return "false"            # R == S and S == R must agree (one reflected __eq__)
+        e = "(via_eq %s %s %s %s %s)" % (C, hq, ordq, xy(P), qZ(k))
+        return "(roam %s %s %s && Bool.eqb %s %s)" % (qZ(p), m, qaff1(v[0]), e, qbool(v[1]))
+    if op == "conv":
+        if not v[2]:
+            return "false"            # from_affine / to_affine must hand the order over
+        return "(jeqb (pj_from_affine %s) %s && raeq (pj_to_affine %s (pj_from_affine %s)) (Ok %s))" % (
+            xy(P), qj(v[0]), qZ(p), xy(P), qaff1(v[1]))
+    raise KeyError(op)
+
+
+def unred_pt(r, P, p):
+    """an unreduced / negative representative of an affine point (Point.__init__ accepts it)"""
+    m = r.choice(["x", "y", "xy", "neg-y"])
+    x, y = P
+    if m in ("x", "xy"):
+        x += p * r.choice([1, -1, 2])
+    if m in ("y", "xy"):
+        y += p * r.choice([1, -1, 3])
+    if m == "neg-y":
+        y -= p                          # what __mul__ builds as negative_self of (x, p - y)
+    return (x, y)
+
+
+def aff_scalars(r, n, bits):
+    ks = [0, 1, 2, 3, 4, n - 2, n - 1, n, n + 1, 2 * n - 1, 2 * n, 2 * n + 1, 3 * n, 4 * n - 1]
+    for j in sorted(set([2, 3, 4, 5, bits // 2, bits - 1, bits, bits + 1])):
+        ks += [2 ** j, 2 ** j - 1, 2 ** j + 1]
+    return ks
+
+
+def affine_small_case(ctx):
+    """one random operation on a small curve: data dict + distribution label"""
+    r = ctx.rng
+    p, a, b, n = r.choice(SMALL)
+    pts = points_of(p, a, b)
+    d = {"op": "aff", "p": p, "a": a, "b": b, "n": n}
+    hh = r.choice([1, 1, 1, 2, 4, None])
+    if hh != 1:
+        d["h"] = hh
+    P = r.choice(pts)
+    aop = r.choice(["add"] * 5 + ["double", "double", "neg", "neg"] + ["mul"] * 7 + ["rmul", "init", "init", "eq", "eq",
+                   "jeq", "jeq", "jeq", "jadd", "jadd", "via", "via", "conv"])
+    d["aop"] = aop
+    lab = aop
+    un = r.random() < 0.18
+    if aop == "add":
+        rel = r.choice(["rand", "rand", "equal", "opposite", "inf-l", "inf-r", "inf-both", "same-x-unreduced"])
+        Q = {"rand": r.choice(pts), "equal": P, "opposite": a_neg(P, p), "inf-r": None, "inf-l": r.choice(pts),
+             "inf-both": None, "same-x-unreduced": (P[0] + p * r.choice([1, -1]), r.choice([P[1], p - P[1]]))}[rel]
+        if rel in ("inf-l", "inf-both"):
+            P = None
+        if un and P is not None:
+            P = unred_pt(r, P, p)
+        if un and Q is not None and r.random() < 0.5:
+            Q = unred_pt(r, Q, p)
+        d["P"], d["Q"] = P and list(P), Q and list(Q)
+        lab += ":" + rel
+    elif aop in ("double", "neg"):
+        if aop == "double" and r.random() < 0.12:
+            P = None
+        elif un:
+            P = unred_pt(r, P, p)
+        d["P"] = P and list(P)
+    elif aop in ("mul", "rmul", "via"):
+        ks = aff_scalars(r, n, n.bit_length())
+        k = r.choice(ks + [r.randrange(0, 4 * n + 1) for _ in range(len(ks))])
+        if aop != "via" and r.random() < 0.15:
+            k = -k
+        order = r.choice([None, None, n, n, 2 * n, 3])
+        if aop != "via":
+            if r.random() < 0.08:
+                P = None
+            elif un:
+                P = unred_pt(r, P, p)
+        if P is None:
+            order = None                # the INFINITY singleton carries no order
+        d["P"], d["k"], d["order"] = P and list(P), k, order
+        lab += ":order=%s" % ("None" if order is None else "n" if order == n else "other")
+    elif aop == "init":
+        kind = r.choice(["on", "on", "on-unreduced", "off", "off"])
+        if kind == "on-unreduced":
+            P = unred_pt(r, P, p)
+        elif kind == "off":
+            P = r.choice([(P[0], (P[1] + 1) % p), ((P[0] + 1) % p, P[1]), (r.randrange(p), r.randrange(p)), (0, 0)])
+        d["P"], d["order"] = list(P), r.choice([None, n, n, 3, 2 * n])
+        lab += ":" + kind
+    elif aop == "eq":
+        rel = r.choice(["same", "same", "other", "same-unreduced", "opposite", "inf", "inf-inf"])
+        Q = {"same": P, "other": r.choice(pts), "same-unreduced": unred_pt(r, P, p), "opposite": a_neg(P, p), "inf": None,
+             "inf-inf": None}[rel]
+        if rel == "inf-inf":
+            P = None
+        elif rel == "inf" and r.random() < 0.5:
+            P, Q = Q, P
+        d["P"], d["Q"] = P and list(P), Q and list(Q)
+        lab += ":" + rel
+    elif aop in ("jeq", "jadd"):
+        rel = r.choice(["same", "same", "other", "opposite", "jinf", "ainf", "both-inf"])
+        base = {"same": P, "other": r.choice(pts), "opposite": a_neg(P, p), "jinf": None, "ainf": P, "both-inf": None}[rel]
+        J = rep(r, base, p, r.choice(["one", "small", "rand"]))
+        if base is None:
+            J = r.choice([(0, 0, 1), (r.randrange(p), 0, r.randrange(1, p)), (r.randrange(p), r.randrange(1, p), 0)])
+        elif r.random() < 0.2:
+            J = (unred(r, J[0], p), unred(r, J[1], p), J[2])
+        Q = None if rel in ("ainf", "both-inf") else P
+        d["J"], d["Q"] = list(J), Q and list(Q)
+        lab += ":" + rel
+    elif aop == "conv":
+        if un:
+            P = unred_pt(r, P, p)
+        d["P"], d["order"] = list(P), r.choice([None, n])
+    return d, lab
+
+
+def affine_shipped_cases(ctx):
+    """operations with at most one modular inversion on all 17 shipped curves (light), and scalar
+    multiplications on the smallest shipped curves (heavy: a 112-bit multiplication takes the model 2 s inside Coq,
+    a 256-bit one half a minute)"""
+    r = ctx.rng
+    light, heavy = [], []
+    cs = shipped()
+    per = ctx.budget(4, 12)
+    for c in cs:
+        p, a, n = int(c.curve.p()), int(c.curve.a()), int(c.order)
+        G = (int(c.generator.x()), int(c.generator.y()))
+        P1 = a_mul(r.randrange(2, n), G, p, a)
+        P2 = a_mul(r.randrange(2, n), G, p, a)
+        menu = [("add", dict(P=P1, Q=P2)), ("add", dict(P=P1, Q=P1)), ("add", dict(P=P1, Q=a_neg(P1, p))),
+                ("add", dict(P=None, Q=P2)), ("add", dict(P=G, Q=None)), ("double", dict(P=P1)), ("double", dict(P=G)),
+                ("neg", dict(P=P2)), ("eq", dict(P=P1, Q=P1)), ("eq", dict(P=P1, Q=a_neg(P1, p))),
+                ("init", dict(P=P1, order=n)), ("init", dict(P=(P1[0], (P1[1] + 1) % p), order=n)),
+                ("jeq", dict(J=rep(r, P1, p, "rand"), Q=P1)), ("jeq", dict(J=rep(r, P2, p, "rand"), Q=P1)),
+                ("jadd", dict(J=rep(r, P2, p, "rand"), Q=P1)), ("jadd", dict(J=rep(r, P1, p, "small"), Q=P1)),
+                ("conv", dict(P=P1, order=n)),
+                ("mul", dict(P=G, k=n, order=n)), ("mul", dict(P=P1, k=0, order=None)), ("mul", dict(P=P1, k=1, order=n)),
+                ("mul", dict(P=P1, k=3 * n, order=n)), ("mul", dict(P=P1, k=2, order=None)), ("mul", dict(P=P1, k=-3, order=n)),
+                ("add", dict(P=P1, Q=(P1[0] + p, P1[1])))]
+        for aop, kw in r.sample(menu, min(per, len(menu))):
+            d = {"op": "aff", "curve": c.name, "aop": aop}
+            d.update({k2: (list(v) if isinstance(v, tuple) else v) for k2, v in kw.items()})
+            light.append((d, "ship:" + aop))
+    by_bits = sorted(cs, key=lambda c: int(c.curve.p()).bit_length())
+    plan = [(c, 5) for c in by_bits[:2]] if ctx.quick() else \
+        [(c, 9) for c in by_bits[:2]] + [(c, 4) for c in by_bits[2:4]] + [(lib()[1].NIST256p, 2)]
+    for c, cnt in plan:
+        p, a, n = int(c.curve.p()), int(c.curve.a()), int(c.order)
+        G = (int(c.generator.x()), int(c.generator.y()))
+        bits = n.bit_length()
+        ks = [2, 3, n - 1, n, n + 1, 2 * n + 1, 2 ** (bits - 1), 2 ** (bits - 1) - 1, 2 ** (bits // 2), 2 ** (bits // 2) - 1,
+              r.randrange(2, n), r.randrange(n, 2 * n), -r.randrange(2, n)]
+        for i, k in enumerate(r.sample(ks, min(cnt, len(ks)))):
+            P = G if i % 2 == 0 else a_mul(r.randrange(2, n), G, p, a)
+            order = r.choice([None, n])
+            if k == n:
+                order = None            # with the order attribute the loop is not reached
+            aop = "via" if (i == cnt - 1 and k >= 0) else r.choice(["mul", "mul", "rmul"])
+            heavy.append(({"op": "aff", "curve": c.name, "aop": aop, "P": list(P), "k": k, "order": order}, "ship-heavy:" + aop))
+    return light, heavy
+
+
+def affine_correspondence(ctx):
+    """(light [(expr, meta)], shipped-light [(expr, meta)], heavy [(expr, meta)]); meta = ('affine', data, impl_ok, result)"""
+    out = ([], [], [])
+    small = [affine_small_case(ctx) for _ in range(ctx.budget(450, 4500))]
+    s_light, s_heavy = affine_shipped_cases(ctx)
+    for idx, cases in enumerate((small, s_light, s_heavy)):
+        for d, lab in cases:
+            res = aff_run(d)
+            ok = aff_impl_ok(d, res)
+            out[idx].append((aff_model(d, res), ("affine", d, ok, repr(res))))
+            ctx.case(("aff", repr(sorted(d.items(), key=lambda t: t[0]))),
+                     trivial=(d.get("k") == 0 or (d.get("P") is None and d.get("Q") is None and "J" not in d)))
+            ctx.dist["affine:%s" % lab] += 1
+            ctx.dist["affine-outcome:%s" % (res[1] if res[0] == "err" else "ok")] += 1
+    if small:
+        ctx.sample(small[0][0])
+    return out
+
+
+def affine_report(ctx, bad, cases, what):
+    """a disagreement between the model and the implementation: a failing input when the implementation's result
+    violates the group law, a broken correspondence otherwise"""
+    for i in bad:
+        _, d, ok, res = cases[i][1]
+        if ok is False:
+            ctx.fail("affine-wrong", d, "implementation: %s; it does not denote the textbook result (and the model disagrees)" % res)
+        else:
+            ctx.broken("correspondence: model of the affine Point class (%s, %s) differs from the implementation" % (what, d["aop"]),
+                       "data=%r implementation=%s" % (d, res))
+
+
+# --- search: the property predicate on the implementation -------------------------------------------
+
+def _aff_check(ctx, d, trivial=False):
+    res = aff_run(d)
+    ok = aff_impl_ok(d, res)
+    ctx.evaluations += 1
+    if ok is False:
+        _fail(ctx, "affine-wrong", d, "implementation: %r; independent affine arithmetic disagrees" % (res,))
+    elif ok is True and res[0] == "ok" and d["aop"] in ("mul", "rmul") and res[1] is not None and \
+            not _canonical(res[1], aff_curve(d)[1]):
+        ctx.dist["affine:mul-returns-unreduced-y"] += 1      # right point, coordinate not reduced (see notes)
+    return ok
+
+
+def affine_small_search(ctx, cvp, full):
+    """complete enumeration of the affine class on one small prime-order curve: every pair (incl. INFINITY) for +, ==,
+    the mixed == and + against every scaling of the Jacobian operand; every point for double, neg, conversions and for
+    all scalars -n-1 .. 3n+1 with and without the order attribute, __rmul__, and against PointJacobi.from_affine(P) * k"""
+    r = ctx.rng
+    p, a, b, n = cvp
+    base = {"op": "aff", "p": p, "a": a, "b": b, "n": n}
+    pts = [None] + points_of(p, a, b)
+    zs = [1, 2, p - 1, r.randrange(2, p)]
+    for P in pts:
+        for Q in pts:
+            _aff_check(ctx, dict(base, aop="add", P=P and list(P), Q=Q and list(Q)))
+            _aff_check(ctx, dict(base, aop="eq", P=P and list(P), Q=Q and list(Q)))
+            for z in zs:
+                if P is None:
+                    J = [(0, 0, 1), (3 % p, 0, 2), (1, 1, 0), (0, 0, 1)][zs.index(z)]
+                else:
+                    J = (P[0] * z * z % p, P[1] * z * z * z % p, z)
+                _aff_check(ctx, dict(base, aop="jeq", J=list(J), Q=Q and list(Q)))
+                _aff_check(ctx, dict(base, aop="jadd", J=list(J), Q=Q and list(Q)))
+        _aff_check(ctx, dict(base, aop="double", P=P and list(P)))
+        if P is None:
+            for order in (None, n):
+                for k in (0, 1, n, -2):
+                    _aff_check(ctx, dict(base, aop="mul", P=None, k=k, order=order))
+            continue
+        _aff_check(ctx, dict(base, aop="neg", P=list(P)))
+        for order in (None, n):
+            _aff_check(ctx, dict(base, aop="conv", P=list(P), order=order))
+            _aff_check(ctx, dict(base, aop="init", P=list(P), order=order, h=r.choice([1, 2, None])))
+            for k in range(-n - 1, 3 * n + 2):
+                _aff_check(ctx, dict(base, aop="mul", P=list(P), k=k, order=order))
+                if k >= 0 and (full or k % 3 == 0):
+                    _aff_check(ctx, dict(base, aop="via", P=list(P), k=k, order=order))
+                if k % 5 == 0:
+                    _aff_check(ctx, dict(base, aop="rmul", P=list(P), k=k, order=order, h=2))
+    for x in range(p):
+        for y in range(p):
+            _aff_check(ctx, dict(base, aop="init", P=[x, y], order=r.choice([None, n])))
+    ctx.nontrivial.add(("affine-group", p, a, b))
+
+
+def affine_shipped_search(ctx, full):
+    r = ctx.rng
+    for c in shipped():
+        p, a, n = int(c.curve.p()), int(c.curve.a()), int(c.order)
+        G = (int(c.generator.x()), int(c.generator.y()))
+        base = {"op": "aff", "curve": c.name}
+        ks = aff_scalars(r, n, n.bit_length()) + [r.randrange(0, 2 * n + 1) for _ in range(10 if full else 3)]
+        ks += [-r.randrange(1, n)]
+        if not full:
+            ks = r.sample(ks, 14)
+        P1 = a_mul(r.randrange(2, n), G, p, a)
+        for k in ks:
+            for P in ((G, P1) if full else (r.choice([G, P1]),)):
+                for order in (None, n):
+                    d = dict(base, aop=r.choice(["mul", "mul", "rmul"]), P=list(P), k=k, order=order)
+                    _aff_check(ctx, d)
+                    ctx.case(("ship-aff", c.name, d["aop"], k, order, P == G), trivial=(k == 0))
+            if k >= 0 and (full or k % 2 == 0):
+                _aff_check(ctx, dict(base, aop="via", P=list(P1), k=k, order=r.choice([None, n])))
+        for Q in (P1, a_neg(P1, p), a_mul(r.randrange(2, n), G, p, a), None):
+            _aff_check(ctx, dict(base, aop="add", P=list(P1), Q=Q and list(Q)))
+            _aff_check(ctx, dict(base, aop="add", P=Q and list(Q), Q=list(P1)))
+            _aff_check(ctx, dict(base, aop="eq", P=list(P1), Q=Q and list(Q)))
+            z = r.randrange(2, p)
+            J = (0, 0, 1) if Q is None else (Q[0] * z * z % p, Q[1] * z * z * z % p, z)
+            _aff_check(ctx, dict(base, aop="jeq", J=list(J), Q=list(P1)))
+            _aff_check(ctx, dict(base, aop="jadd", J=list(J), Q=list(P1)))
+        _aff_check(ctx, dict(base, aop="double", P=list(P1)))
+        _aff_check(ctx, dict(base, aop="neg", P=list(P1)))
+        _aff_check(ctx, dict(base, aop="conv", P=list(P1), order=n))
+        _aff_check(ctx, dict(base, aop="init", P=list(P1), order=n))
+        _aff_check(ctx, dict(base, aop="init", P=[P1[0], (P1[1] + 1) % p], order=n))
 
 
 # ---------------------------------------------------------------------------
@@ -1498,6 +2015,15 @@ def search(ctx):
             small_group_search(ctx, cvp, full and cvp[3] <= 23)
         for cvp in (SMALL if full else SMALL[:4]):
             small_ecdh_search(ctx, cvp)
+        for cvp in smalls:
+            affine_small_search(ctx, cvp, full and cvp[3] <= 23)
+        affine_shipped_search(ctx, full)
+        if ctx.dist.get("affine:mul-returns-unreduced-y"):
+            ctx.notes.append("affine Point.__mul__ returned the right point with an unreduced (negative) y in %d cases: when "
+                             "the accumulator passes through INFINITY and the next step subtracts, the temporary "
+                             "negative_self = (x, -y) is handed back, e.g. p=7 a=1 b=1 G=(0,1): G*19 = (0,-1) while G*4 = (0,6) "
+                             "(Properties/C17.v: C17_affine_mul_canonical_partial/_refuted); judged modulo p here"
+                             % ctx.dist["affine:mul-returns-unreduced-y"])
         shipped_search(ctx)
         ecdh_sequence_search(ctx, full)
         if not ctx.quick():
@@ -1519,7 +2045,16 @@ def search(ctx):
         "load_received_public_key[_bytes/_der/_pem] in every order up to length 3-4 plus random longer ones over pairs of "
         "different curves of equal size, then generate_sharedsecret_bytes: a secret only when all three are on one curve, "
         "else the documented NoKeyError/NoCurveError/InvalidCurveError) against an "
-        "independent affine implementation; distinct = by operation and inputs, trivial = scalar 0 / k = 0")
+        "independent affine implementation; distinct = by operation and inputs, trivial = scalar 0 / k = 0. "
+        "AFFINE class Point (Gen/EcAffine.v + Model/EcAffine.v): correspondence = random operations (+, double, neg, *, "
+        "rmul, constructor incl. the order assertion and off-curve arguments, ==, PointJacobi == / + with an affine operand in "
+        "random scalings and encodings of INFINITY, from_affine/to_affine, from_affine(P)*k against P*k) on the small curves "
+        "with cofactor flags 1/2/4/None, order attribute None/n/2n/wrong, scalars 0,1,2,n-1,n,n+1,2n+-1,3n,2^j,2^j+-1, random up "
+        "to 4n and negative, INFINITY / equal / opposite / unreduced operands (exact integers and exact exception kind: "
+        "AssertionError, ValueError of pow(x,-1,p)); the same operations on all 17 shipped curves and scalar multiplications on "
+        "the smallest shipped curves inside Coq.  search = complete enumeration on the small curves (every pair for +, ==, "
+        "mixed ==/+ in 4 scalings, every scalar -n-1..3n+1 with/without order, via PointJacobi) and edge/random scalars on all "
+        "17 shipped curves against the independent textbook arithmetic (coordinates judged modulo p)")
 
 
 # ---------------------------------------------------------------------------
@@ -1665,6 +2200,11 @@ def replay(ctx, data):
                                                                              "; ".join("%s[%s]" % tuple(x) for x in d["seq"])))
                 print("  " + ("agrees with the reference" if ok else cc.fails[0]))
                 rc |= not ok
+            elif op == "aff":
+                res = aff_run(d)
+                ok = aff_impl_ok(d, res)
+                print("  implementation:", res, " agrees with the independent affine arithmetic:", ok)
+                rc |= ok is False
             elif op == "order":
                 got = to_aff(c.generator * n, p)
                 print("  n*G:", got, " (must be None = INFINITY)")
